@@ -1,4 +1,5 @@
 import ComposeVerif.Model.Encode
+import ComposeVerif.Spec.RoundTrip
 /-! Helper lemmas for C09: the tag-driven struct encoding renders every field under its own key. -/
 namespace CV.Encode
 open CV CV.TypeDesc CV.Marshal
@@ -219,5 +220,37 @@ theorem encodeFields_field (fmt : Fmt) (enc : TyExpr → Val → Out) (zero : Ty
         exact hrec
       · rw [hout]
         exact hrec
+
+/-! ### linking the Boolean descriptor facts of `Spec/RoundTrip.lean` to the hypotheses above -/
+open CV.RoundTrip
+
+theorem nodupB_nodup : ∀ l : List String, nodupB l = true → l.Nodup := by
+  intro l
+  induction l with
+  | nil => intro _; exact List.nodup_nil
+  | cons x r ih =>
+    intro h
+    simp only [nodupB, Bool.and_eq_true, Bool.not_eq_true', List.contains_eq_mem, decide_eq_false_iff_not] at h
+    exact List.nodup_cons.mpr ⟨h.1, ih h.2⟩
+
+theorem renderedYamlKeys_eq (s : StructDesc) :
+    renderedYamlKeys s = (s.fields.filter (keyed .yaml)).map (keyOf .yaml) := by
+  unfold renderedYamlKeys
+  induction s.fields with
+  | nil => rfl
+  | cons fd r ih =>
+    obtain ⟨gn, ty, ex, yk, ys, yo, yi, jk, js, jo⟩ := fd
+    simp only [List.filterMap_cons, List.filter_cons]
+    cases ex <;> cases ys <;> cases yi <;> first | exact ih | exact congrArg (List.cons yk) ih
+
+theorem renderedJsonKeys_eq (s : StructDesc) :
+    renderedJsonKeys s = (s.fields.filter (keyed .json)).map (keyOf .json) := by
+  unfold renderedJsonKeys
+  induction s.fields with
+  | nil => rfl
+  | cons fd r ih =>
+    obtain ⟨gn, ty, ex, yk, ys, yo, yi, jk, js, jo⟩ := fd
+    simp only [List.filterMap_cons, List.filter_cons]
+    cases ex <;> cases js <;> first | exact ih | exact congrArg (List.cons jk) ih
 
 end CV.Encode
